@@ -54,7 +54,7 @@ fn parser_split<const N: usize>() {
     let len: usize = kani::any();
     kani::assume(len <= N);
     let begin: usize = kani::any();
-    kani::assume(begin + len <= CAP);
+    kani::assume(begin <= CAP && len <= CAP - begin);
     // first the parser sees only k bytes, then the rest: the result must be that of the whole stream
     let k: usize = kani::any();
     kani::assume(k <= len);
@@ -144,20 +144,21 @@ fn c05_parser_max_frame() {
     kani::cover!(!big, "254 accepted");
 }
 
-const S: usize = 10;
+const S: usize = 8;
 
 //@ props: C05 C07 C20
 //@ peer: yes
-//@ timeout: 2400
+//@ tier: thorough
+//@ timeout: 5400
 //@ fns: common::frame::FramedReader::next_frame, FrameParser::parse, FrameParser::reset, tcp::frame::MbapParser::parse, common::buffer::ReadBuffer::read_some, common::phys::PhysLayer::read
-//@ bounds: every byte stream of 0..=10 bytes, EVERY partition into read chunks (each chunk size chosen by the solver), up to 2 calls of next_frame; all decode levels
+//@ bounds: every byte stream of 0..=8 bytes (header + one body byte), EVERY partition into read chunks (each chunk size chosen by the solver), up to 2 calls of next_frame; all decode levels
 //@ stubs: transport = VerifIo (hook H1)
 //@ outside: longer streams (the parser/read steps from arbitrary states carry the argument beyond the bound)
 /// end to end: whatever the chunking, the reader yields the reference frames in order, then reports
 /// end-of-stream / the framing error
 #[kani::proof]
-#[kani::unwind(12)]
-fn c05_reader_chunking_q() {
+#[kani::unwind(10)]
+fn c05_reader_chunking_t() {
     let s: [u8; S] = kani::any();
     let len: usize = kani::any();
     kani::assume(len <= S);
@@ -185,7 +186,7 @@ fn c05_reader_chunking_q() {
         (Err(e), RefMbap::NeedMore) => assert!(matches!(e, RequestError::Io(std::io::ErrorKind::UnexpectedEof)), "[C05] an incomplete stream ends with end-of-stream"),
         _ => assert!(false, "[C05] reader result differs from the reference framing"),
     }
-    kani::cover!(matches!(w1, RefMbap::Frame(_, _, a) if a == 3) && phys.verif().reads >= 3, "frame assembled from three or more chunks");
+    kani::cover!(matches!(w1, RefMbap::Frame(_, _, a) if a == 1) && phys.verif().reads >= 3, "frame assembled from three or more chunks");
     kani::cover!(w1 == RefMbap::Bad, "bad header");
     kani::cover!(w1 == RefMbap::NeedMore && len > 7, "truncated body");
     std::mem::forget(phys);
